@@ -32,108 +32,101 @@ pub(super) async fn sync(
     // complete.
     let mut transformed_server_ops = Vec::new();
 
+    // The local operations not yet accepted by the server, in sync form. This list is kept across
+    // all iterations below: it is rebased over every version received from the server, and
+    // operations leave it only once the server has accepted a version containing them.
+    let mut local_ops: Vec<SyncOp> = txn
+        .unsynced_operations()
+        .await?
+        .into_iter()
+        .filter_map(SyncOp::from_op)
+        .collect();
+
     // retry synchronizing until the server accepts our version (this allows for races between
     // replicas trying to sync to the same server).  If the server insists on the same base
     // version twice, then we have diverged.
     let mut requested_parent_version_id = None;
-    'outer: loop {
+    loop {
         trace!("beginning sync outer loop");
         let mut base_version_id = txn.base_version().await?;
 
-        let mut local_ops = txn.unsynced_operations().await?;
-        let sync_ops = local_ops.drain(..).filter_map(SyncOp::from_op);
-        let mut sync_ops_peekable = sync_ops.peekable();
+        // first pull changes and "rebase" all of the remaining local operations on top of them
+        loop {
+            trace!("beginning sync inner loop");
+            if let GetVersionResult::Version {
+                version_id,
+                history_segment,
+                ..
+            } = server.get_child_version(base_version_id).await?
+            {
+                let version_str = str::from_utf8(&history_segment).unwrap();
+                let version: Version = serde_json::from_str(version_str).unwrap();
 
-        // batch operations into versions of no more than a million bytes to avoid excessively large http requests.
-        let sync_ops_batched = std::iter::from_fn(|| {
-            let mut batch_size = 0;
-            let mut batch = Vec::new();
-
-            while let Some(op) = sync_ops_peekable.next_if(|op| {
-                batch_size += serde_json::to_string(&op).unwrap().len();
-                // include if the batch is empty or if the batch size limit is not exceeded.
-                batch.is_empty() || batch_size <= 1000000
-            }) {
-                batch.push(op);
+                // apply this version and update base_version in storage
+                info!("applying version {version_id:?} from server");
+                apply_version(txn, &mut local_ops, &mut transformed_server_ops, version).await?;
+                txn.set_base_version(version_id).await?;
+                base_version_id = version_id;
+            } else {
+                info!("no child versions of {base_version_id:?}");
+                // at the moment, no more child versions, so we can try adding our own
+                break;
             }
+        }
 
-            Some(batch)
-        });
+        if local_ops.is_empty() {
+            info!("no changes to push to server");
+            // nothing to sync back to the server..
+            break;
+        }
 
-        for mut sync_ops_batch in sync_ops_batched {
-            // first pull changes and "rebase" on top of them
-            loop {
-                trace!("beginning sync inner loop");
-                if let GetVersionResult::Version {
-                    version_id,
-                    history_segment,
-                    ..
-                } = server.get_child_version(base_version_id).await?
-                {
-                    let version_str = str::from_utf8(&history_segment).unwrap();
-                    let version: Version = serde_json::from_str(version_str).unwrap();
+        // batch operations into versions of no more than a million bytes to avoid excessively
+        // large http requests: the next version is the longest prefix of the local operations
+        // that fits (but at least one operation).
+        let mut batch_size = 0;
+        let mut batch_len = 0;
+        for op in &local_ops {
+            batch_size += serde_json::to_string(op).unwrap().len();
+            if batch_len > 0 && batch_size > 1000000 {
+                break;
+            }
+            batch_len += 1;
+        }
 
-                    // apply this version and update base_version in storage
-                    info!("applying version {version_id:?} from server");
-                    apply_version(
-                        txn,
-                        &mut sync_ops_batch,
-                        &mut transformed_server_ops,
-                        version,
-                    )
-                    .await?;
-                    txn.set_base_version(version_id).await?;
-                    base_version_id = version_id;
+        trace!("sending {batch_len} operations to the server");
+
+        // now make a version of our local changes and push those
+        let new_version = Version {
+            operations: local_ops[..batch_len].to_vec(),
+        };
+        let history_segment = serde_json::to_string(&new_version).unwrap().into();
+        info!("sending new version to server");
+        let (res, snapshot_urgency) = server.add_version(base_version_id, history_segment).await?;
+        match res {
+            AddVersionResult::Ok(new_version_id) => {
+                info!("version {new_version_id:?} received by server");
+                txn.set_base_version(new_version_id).await?;
+                local_ops.drain(..batch_len);
+
+                // make a snapshot if the server indicates it is urgent enough
+                let base_urgency = if avoid_snapshots {
+                    SnapshotUrgency::High
                 } else {
-                    info!("no child versions of {base_version_id:?}");
-                    // at the moment, no more child versions, so we can try adding our own
-                    break;
+                    SnapshotUrgency::Low
+                };
+                if snapshot_urgency >= base_urgency {
+                    let snapshot = snapshot::make_snapshot(txn).await?;
+                    server.add_snapshot(new_version_id, snapshot).await?;
                 }
             }
-
-            if sync_ops_batch.is_empty() {
-                info!("no changes to push to server");
-                // nothing to sync back to the server..
-                break 'outer;
-            }
-
-            trace!("sending {} operations to the server", sync_ops_batch.len());
-
-            // now make a version of our local changes and push those
-            let new_version = Version {
-                operations: sync_ops_batch,
-            };
-            let history_segment = serde_json::to_string(&new_version).unwrap().into();
-            info!("sending new version to server");
-            let (res, snapshot_urgency) =
-                server.add_version(base_version_id, history_segment).await?;
-            match res {
-                AddVersionResult::Ok(new_version_id) => {
-                    info!("version {new_version_id:?} received by server");
-                    txn.set_base_version(new_version_id).await?;
-                    base_version_id = new_version_id;
-
-                    // make a snapshot if the server indicates it is urgent enough
-                    let base_urgency = if avoid_snapshots {
-                        SnapshotUrgency::High
-                    } else {
-                        SnapshotUrgency::Low
-                    };
-                    if snapshot_urgency >= base_urgency {
-                        let snapshot = snapshot::make_snapshot(txn).await?;
-                        server.add_snapshot(new_version_id, snapshot).await?;
+            AddVersionResult::ExpectedParentVersion(parent_version_id) => {
+                info!("new version rejected; must be based on {parent_version_id:?}");
+                if let Some(requested) = requested_parent_version_id {
+                    if parent_version_id == requested {
+                        return Err(Error::OutOfSync);
                     }
                 }
-                AddVersionResult::ExpectedParentVersion(parent_version_id) => {
-                    info!("new version rejected; must be based on {parent_version_id:?}");
-                    if let Some(requested) = requested_parent_version_id {
-                        if parent_version_id == requested {
-                            return Err(Error::OutOfSync);
-                        }
-                    }
-                    requested_parent_version_id = Some(parent_version_id);
-                    break;
-                }
+                requested_parent_version_id = Some(parent_version_id);
             }
         }
     }
